@@ -501,7 +501,7 @@ fn run_case(ctx: &mut Ctx, fx: &Fixture, family: &str, set: &[&PoolEntry]) {
 
 /// The export plugin configured with "lifecyclesToKeep": the plugin adds an internal negative filter and rewrites it
 /// whenever it meets a lifecycle to keep. Real lifecycles (one per ECU x lifecycle number of the stream, published
-/// through an evmap as the lifecycle stage does) x every non-empty subset of them to keep (quick: 6 subsets) x every
+/// through an evmap as the lifecycle stage does) x every subset of them to keep (empty list = no restriction; quick: 7 subsets) x every
 /// filter set of up to 2 pool filters: the file holds exactly the messages the statement keeps among the messages
 /// of the kept lifecycles.
 fn export_keep_family(ctx: &mut Ctx, fx: &Fixture) {
@@ -523,15 +523,16 @@ fn export_keep_family(ctx: &mut Ctx, fx: &Fixture) {
     let real_id = |ecu: &[u8; 4], lc: u32| real.iter().find(|r| r.0 == (*ecu, lc)).map(|r| r.1).expect("lifecycle of the stream");
     let msgs: Vec<DltMessage> = fx.msgs.iter().zip(fx.st.iter()).map(|(m, u)| { let mut m = m.clone(); m.lifecycle = real_id(&u.ecu, u.lc); m }).collect();
     let n = msgs.len();
-    let subsets: Vec<u32> = if ctx.tier == Tier::Thorough { (1..16).collect() } else { vec![0b0001, 0b0011, 0b0100, 0b0101, 0b1010, 0b1111] };
+    // 0 = the key is present with an empty list: nothing is restricted
+    let subsets: Vec<u32> = if ctx.tier == Tier::Thorough { (0..16).collect() } else { vec![0, 0b0001, 0b0011, 0b0100, 0b0101, 0b1010, 0b1111] };
     let kmax = export_max_set();
     ctx.begin_family("export_lifecycles_to_keep", &format!("{} subsets of the 4 lifecycles to keep x filter sets of <= {kmax} of {} pool filters", subsets.len(), fx.pool.len()));
     let dir = if std::path::Path::new("/dev/shm").is_dir() { "/dev/shm" } else { "/tmp" };
     let path = format!("{dir}/mc-c12-keep-{}.dlt", std::process::id());
     let mut done = true;
     'o: for keep in &subsets {
-        let kept: Vec<bool> = (0..4).map(|b| keep & (1 << b) != 0).collect();
-        let to_keep: Vec<Value> = real.iter().enumerate().filter(|(i, _)| kept[*i]).map(|(_, r)| json!({"ecu": std::str::from_utf8(&r.0 .0).unwrap(), "startTime": r.2, "endTime": r.3})).collect();
+        let kept: Vec<bool> = (0..4).map(|b| *keep == 0 || keep & (1 << b) != 0).collect();
+        let to_keep: Vec<Value> = real.iter().enumerate().filter(|(i, _)| *keep != 0 && kept[*i]).map(|(_, r)| json!({"ecu": std::str::from_utf8(&r.0 .0).unwrap(), "startTime": r.2, "endTime": r.3})).collect();
         for k in 0..=kmax {
             let fin = enumr::sequences(k, fx.pool.len(), |ix| {
                 if !ctx.mine() {
@@ -619,7 +620,7 @@ impl Prop for C12 {
             rule: "all ordered tuples (superset of the multisets) of <= k filters from a pool of 20 (positive / negative / event / marker x enabled / disabled x plain / negated, overlapping ECU / APID / payload / lifecycle criteria) x a 30-message stream (2 ECUs x {no extended header, 2 APIDs} x 2 lifecycles x 2 texts + 6 repeated messages), through filter_as_streams, through match_filters on the container built by StreamContext::from, and through the remote stream path process_stream_new_msgs (called like the server loop, chunk limits 1 / 7 / unlimited); searches: the paged stream_search sessions of the C16 explorer (stream filter set x search filter set x page size x start, following next_search_idx) on the real server handlers. Oracle from the statement (single-filter decisions from the independent C11 evaluator): selection, forwarded messages equal to the received ones, original order, passed + filtered = received and passed = number forwarded, event clause for match_filters, agreement of both implementations when no enabled event filter is present. A case is non-trivial when the statement keeps some but not all messages.".into(),
             assumptions: vec![
                 "filter_as_streams is the convert path: the statement's event clause ('for streams and searches') is applied to match_filters only".into(),
-                "the export plugin is driven for filter sets of up to 2 (thorough 3) filters: the file it writes (without its info messages) must hold exactly the messages the statement keeps; with 'lifecyclesToKeep' (family export_lifecycles_to_keep: 4 real lifecycles in an evmap, every subset of them to keep (quick 6), the lifecycle infos bracket exactly one lifecycle each) exactly those of them that belong to a kept lifecycle".into(),
+                "the export plugin is driven for filter sets of up to 2 (thorough 3) filters: the file it writes (without its info messages) must hold exactly the messages the statement keeps; with 'lifecyclesToKeep' (family export_lifecycles_to_keep: 4 real lifecycles in an evmap, every subset of them to keep incl. the empty list = no restriction (quick 7), the lifecycle infos bracket exactly one lifecycle each) exactly those of them that belong to a kept lifecycle".into(),
                 "the error path of filter_as_streams (downstream send fails) is outside the statement".into(),
             ],
             budget_s: (90, 1200),
